@@ -15,33 +15,76 @@ namespace c11
    // ---------------------------------------------------------------- termination observer
    // Control< Rule >::match is entered for EVERY rule (also those with enable_control = false), so
    // every iteration of every loop and every level of every recursion passes through here.
+   // A run counts as RUNAWAY ('R') only for a genuine cycle without progress: the same rule entered again at the same input
+   // position (and input end) while an invocation of it at that position is still open (unbounded recursion), or one open
+   // invocation starting the same sub-rule at the same position more than 1000 times (a loop whose body succeeds without
+   // consuming).  A run that merely is expensive (exponential backtracking) ends as 'B' after max_steps invocations and is
+   // not judged.  Sticky flags: a catch( ... ) inside the grammar cannot hide either.
+   struct frame
+   {
+      int rule;
+      const char* cur;
+      const char* end;
+      std::vector< std::pair< std::pair< int, const char* >, int > > kids;
+   };
    struct budget
    {
       long steps = 0;
-      long depth = 0;
-      bool tripped = false;
+      int tripped = 0;      // 1 = runaway, 2 = budget
+      std::vector< frame > stack;
    };
    inline budget& bud()
    {
       static budget b;
       return b;
    }
-   constexpr long max_steps = 20000;   // same bound as vh::step
-   constexpr long max_depth = 1500;
-   struct depth_guard
+   constexpr long max_steps = 300000;
+   struct frame_guard
    {
-      depth_guard()
+      frame_guard( const int rule, const char* cur, const char* end )
       {
          budget& b = bud();
-         ++b.depth;
-         if( b.tripped || ( ++b.steps > max_steps ) || ( b.depth > max_depth ) ) {
-            b.tripped = true;
-            --b.depth;
+         if( b.tripped == 1 ) {
             throw vh::runaway{};
          }
+         if( ( b.tripped == 2 ) || ( ++b.steps > max_steps ) ) {
+            b.tripped = 2;
+            throw vh::budget_exhausted{};
+         }
+         for( auto it = b.stack.rbegin(); it != b.stack.rend(); ++it ) {
+            if( ( it->rule == rule ) && ( it->cur == cur ) && ( it->end == end ) ) {
+               b.tripped = 1;
+               throw vh::runaway{};
+            }
+         }
+         if( !b.stack.empty() ) {
+            auto& kids = b.stack.back().kids;
+            bool found = false;
+            for( auto& k : kids ) {
+               if( ( k.first.first == rule ) && ( k.first.second == cur ) ) {
+                  found = true;
+                  if( ++k.second > 1000 ) {
+                     b.tripped = 1;
+                     throw vh::runaway{};
+                  }
+                  break;
+               }
+            }
+            if( !found ) {
+               kids.push_back( { { rule, cur }, 1 } );
+            }
+         }
+         b.stack.push_back( frame{ rule, cur, end, {} } );
+         pushed = true;
       }
-      ~depth_guard() { --bud().depth; }
-      depth_guard( const depth_guard& ) = delete;
+      ~frame_guard()
+      {
+         if( pushed ) {
+            bud().stack.pop_back();
+         }
+      }
+      frame_guard( const frame_guard& ) = delete;
+      bool pushed = false;
    };
    template< typename Rule >
    struct ctl : normal< Rule >
@@ -49,7 +92,7 @@ namespace c11
       template< apply_mode A, rewind_mode M, template< typename... > class Action, template< typename... > class Control, typename In, typename... St >
       [[nodiscard]] static bool match( In& in, St&&... st )
       {
-         const depth_guard g;
+         const frame_guard g( vh::index_of< Rule >(), in.current(), in.end() );
          return normal< Rule >::template match< A, M, Action, Control >( in, st... );
       }
    };
@@ -90,7 +133,9 @@ namespace c11
    char run_one( const std::string& s )
    {
       bud() = budget();
-      vh::steps() = 0;      // control< vh::ctl1, ... > inside a grammar replaces our observer by vh::obs_control, which counts rule starts
+      vh::steps() = 0;      // control< vh::ctl1, ... > inside a grammar replaces our observer by vh::obs_control, which has its own detector
+      vh::tripped() = 0;
+      vh::lstack().clear();
       vh::lg().clear();
       vh::st_counter() = 0;
       char* buf = new char[ s.size() ? s.size() : 1 ];
@@ -109,8 +154,12 @@ namespace c11
          }
       }
       delete[] buf;
-      if( bud().tripped || ( vh::steps() > max_steps ) ) {
-         res = 'R';   // a catch( ... ) inside the grammar may have swallowed the signal
+      // a catch( ... ) inside the grammar may have swallowed the signal: the sticky flags decide
+      if( ( bud().tripped == 1 ) || ( vh::tripped() == 1 ) ) {
+         res = 'R';
+      }
+      else if( ( bud().tripped == 2 ) || ( vh::tripped() == 2 ) ) {
+         res = 'B';   // budget exhausted: terminating-but-expensive or undetermined, not judged
       }
       return res;
    }
